@@ -197,4 +197,43 @@ theorem LBuf.runStop_err (ops : List Op) : ∀ (b : LBuf), (∀ o ∈ ops, o.isW
           (by simp only [opsSize] at hover; simp only; omega)
         simp [this, LBuf.reset]
 
+/-! ### `prepareMessage` evaluated -/
+
+theorem prepare_of_over (limit : Nat) (ops : List Op) (hw : ∀ o ∈ ops, o.isWrite = true) (hne : ops ≠ [])
+    (h : 0 < limit ∧ limit < 4 + opsSize ops) : prepare limit ops = .err .tooLarge := by
+  have := OutBuf.runStop_err ops (OutBuf.new limit) hw hne
+    (by show 0 < limit ∧ limit < opsSize ops + 4; omega)
+  simp only [prepare, this, if_true]
+
+theorem prepare_of_fits (limit : Nat) (ops : List Op) (hw : ∀ o ∈ ops, o.isWrite = true)
+    (h : ¬ (0 < limit ∧ limit < 4 + opsSize ops)) :
+    prepare limit ops = .ok (be32 (opsSize ops) ++ opsPayload ops) := by
+  have := OutBuf.runStop_ok ops (OutBuf.new limit) hw
+    (by show ¬ (0 < limit ∧ limit < opsSize ops + 4); omega)
+  simp only [prepare, this]
+  simp [bytes, len, OutBuf.new, framePlaceholder, opsSize_eq]
+
+theorem prepareLen_of_over (limit : Nat) (ops : List Op) (hw : ∀ o ∈ ops, o.isWrite = true) (hne : ops ≠ [])
+    (h : 0 < limit ∧ limit < 4 + opsSize ops) : prepareLen limit ops = .err .tooLarge := by
+  have := LBuf.runStop_err ops (LBuf.new limit) hw hne
+    (by show 0 < limit ∧ limit < opsSize ops + 4; omega)
+  simp only [prepareLen, this, if_true]
+
+theorem prepareLen_of_fits (limit : Nat) (ops : List Op) (hw : ∀ o ∈ ops, o.isWrite = true)
+    (h : ¬ (0 < limit ∧ limit < 4 + opsSize ops)) :
+    prepareLen limit ops = .ok (4 + opsSize ops) := by
+  have := LBuf.runStop_ok ops (LBuf.new limit) hw
+    (by show ¬ (0 < limit ∧ limit < opsSize ops + 4); omega)
+  simp only [prepareLen, this]
+  simp [LBuf.new]
+
+/-- A server reply on a fresh buffer of limit `r`. -/
+theorem LBuf.reply_over (r : Nat) (rep : List Op) (hw : ∀ o ∈ rep, o.isWrite = true) (hne : rep ≠ [])
+    (h : 0 < r ∧ r < 4 + opsSize rep) : (LBuf.new r).runStop rep = (LBuf.new r, true) :=
+  LBuf.runStop_err rep (LBuf.new r) hw hne (by show 0 < r ∧ r < opsSize rep + 4; omega)
+
+theorem LBuf.reply_fits (r : Nat) (rep : List Op) (hw : ∀ o ∈ rep, o.isWrite = true)
+    (h : ¬ (0 < r ∧ r < 4 + opsSize rep)) : (LBuf.new r).runStop rep = (⟨r, 4 + opsSize rep⟩, false) :=
+  LBuf.runStop_ok rep (LBuf.new r) hw (by show ¬ (0 < r ∧ r < opsSize rep + 4); omega)
+
 end FV
